@@ -11,6 +11,15 @@ def run(ctx):
     vh = ctx.build_harness()
     if ctx.replay:
         r = json.load(open(ctx.replay))
+        if r.get("foot"):
+            from . import osfoot
+            f = r["foot"]
+            _, judged = osfoot.run(ctx, vh, [{"line": r["lines"][0], "op": f["op"], "writes": set(f["writes"]), "below": f["below"], "desc": f["desc"]}])
+            for c, msgs in judged:
+                print("syscall footprint:", msgs or "within bounds")
+                if msgs:
+                    ctx.violation("replay: %s: %s" % (c["desc"], "; ".join(sorted(set(msgs))[:4])), dict(r))
+            return ctx.finish("proof", rule="replay (syscall footprint)")
         impl, mod = P.run_both(ctx, vh, model, r["lines"])
         for l, i, m in zip(r["lines"], impl, mod):
             print("impl :", i[:300]); print("model:", m[:300])
@@ -158,6 +167,12 @@ def run(ctx):
             d[16384 + 100] ^= 0xff
             fs[A.paths["big.bin"]] = bytes(d)
             slines.append((A, L.line_repair("p2", "mem", A.index, dbl, 1, fs), fs))
+            # ... and with exactly as many stale blocks as lost slices: then a re-encoding double check agrees trivially
+            # with the blocks that were used, and only the file hashes stand between the wrong bytes and the disk
+            for keep in B.volumes:
+                fs1 = {p_: d_ for p_, d_ in fs.items() if p_ not in B.volumes or p_ == keep}
+                if P.vol_blocks(keep) == 1:
+                    slines.append((A, L.line_repair("p2", "mem", A.index, dbl, 1, fs1), fs1))
     si, sm = P.run_both(ctx, vh, model, [x[1] for x in slines])
     for (A, line, fs), x, y in zip(slines, si, sm):
         px = L.parse_result(x)
@@ -169,6 +184,41 @@ def run(ctx):
             report("Repair wrote bytes that are not the original (stale recovery files accepted): %s result %s" % (bad, px["res"]), replay)
         elif x != y:
             report("Repair with stale recovery files differs from the model: impl=%s model=%s" % (x[:100], y[:100]), replay, nf=True)
+    # ---------------- syscall-level footprint on a real directory (strace): what is touched, not what is left ----------------
+    from . import osfoot
+    from . import par1common as P1
+    fcs = []
+    for k, (ps, line, m) in enumerate(zip(csets, clines, cm)):
+        if k % 2:
+            fcs.append({"line": line, "op": "create", "writes": set(L.parse_result(m)["changed"]), "below": P.DIR, "desc": "par2 create"})
+    nrep = 0
+    for c, y in zip(cases, rm):
+        if c["mode"] == "real" and nrep < (25 if ctx.tier != "thorough" else 200):
+            nrep += 1
+            fcs.append({"line": c["rline"], "op": "repair", "writes": set(c["set"].paths.values()), "below": P.DIR, "desc": "par2 repair " + c["desc"]})
+    for line in rv_lines[:(15 if ctx.tier != "thorough" else 100)]:
+        fcs.append({"line": line, "op": "verify", "writes": set(), "below": P.DIR, "desc": "par2 verify"})
+    # PAR1: a set by the independent writer with a non-saved entry, one file lost, bystanders named like temporaries
+    p1files = [("a.dat", L.gen_content(rng, "random", 40), True), ("skip.me", b"not in the set", False), ("sub b.bin", L.gen_content(rng, "random", 25), True)]
+    s1 = P1.SpecSet1(p1files, 2)
+    by1 = {P1.DIR + "/a.dat.tmp": b"bystander 1", P1.DIR + "/a.dat~": b"bystander 2", P1.DIR + "/.a.dat.swp": b"bystander 3", P1.DIR + "/arc.par.tmp": b"bystander 4"}
+    for lost in ("a.dat", "sub b.bin", None):
+        fs1 = dict(s1.archive("arc")); fs1.update({P1.DIR + "/" + n: d for n, d, _ in p1files if n != lost}); fs1.update(by1)
+        fcs.append({"line": P1.line_repair("real", P1.DIR + "/arc.par", False, fs1), "op": "repair", "writes": {P1.DIR + "/" + n for n, _, sv in p1files if sv}, "below": P1.DIR, "desc": "par1 repair lost=%s" % lost})
+        fcs.append({"line": P1.line_verify("real", P1.DIR + "/arc.par", True, fs1), "op": "verify", "writes": set(), "below": P1.DIR, "desc": "par1 verify lost=%s" % lost})
+    fin = {P1.DIR + "/" + n: d for n, d, _ in p1files}; fin.update(by1)
+    fcs.append({"line": P1.line_create("real", P1.DIR + "/new.par", 2, [P1.DIR + "/" + n for n, _, _ in p1files], fin), "op": "create",
+                "writes": {P1.DIR + "/new.par", P1.DIR + "/new.p01", P1.DIR + "/new.p02"}, "below": P1.DIR, "desc": "par1 create"})
+    try:
+        fres, judged = osfoot.run(ctx, vh, fcs)
+    except Exception as e:                       # strace not usable here: recorded, the snapshot comparisons above stand
+        fres, judged = [], []
+        dist["syscall_footprint"] = "not run: %s" % str(e)[:200]
+    for c, msgs in judged:
+        ctx.count("foot|" + L.hx(L.md5(c["line"].encode())), True)
+        dist["syscall_footprint_cases"] = dist.get("syscall_footprint_cases", 0) + 1
+        if msgs:
+            report("%s: %s" % (c["desc"], "; ".join(sorted(set(msgs))[:4])), {"lines": [c["line"]], "mode": "real", "foot": {"op": c["op"], "writes": sorted(c["writes"]), "below": c["below"], "desc": c["desc"]}, "messages": sorted(set(msgs))[:20], "class": {"op": c["op"], "kind": "syscall-footprint"}})
     extra = {"input_distribution": dist}
     try:
         from . import par1common
@@ -177,6 +227,6 @@ def run(ctx):
         extra["par1"] = "PAR1 part not built yet"
     return ctx.finish(
         "proof",
-        rule="PAR2 archive states from the C01 generator (incl. beyond-capacity damage, pairs of damages, dropped recovery files) plus damaged / truncated / garbage / foreign recovery files, with bystander files, a foreign .par2 in a sub-directory and a file outside the set directory; half of the Repairs and all listed Verifies on a real directory whose whole tree is snapshotted before and after; Create in memory and on disk; non-trivial = some protected file differs from its original",
+        rule="PAR2 archive states from the C01 generator (incl. beyond-capacity damage, pairs of damages, dropped recovery files) plus damaged / truncated / garbage / foreign recovery files, with bystander files, a foreign .par2 in a sub-directory and a file outside the set directory; half of the Repairs and all listed Verifies on a real directory whose whole tree is snapshotted before and after; Create in memory and on disk; SYSCALL FOOTPRINT: real-directory Creates, Repairs and Verifies (PAR2 and PAR1, incl. bystanders named like temporaries) run under strace - every file-system call between the harness markers must stay below the set directory and every create/truncate/rename/unlink/mkdir/chmod must target a path the operation may write; non-trivial = some protected file differs from its original",
         extra=dict(extra, predicate="changed paths subset of repaired paths subset of protected paths, each holding exactly the original bytes, for every outcome; Verify and Create leave everything else (Create: everything but its own outputs) unchanged",
                    compared="outcome class, repaired list, I/O trace, changed files vs the extracted model"))
